@@ -15,7 +15,8 @@ def run(ctx):
               "build cases with >=2 scenarios; shot cases with >=2 shots or a failing step; every inst case; iter cases with >=2 goroutines; "
               "distinct = distinct case lines"),
         key_fn=key_fn,
-        translators=[("gofn-math", "GoFnMathGen.v")], bridge_files=["Gen/GoFnMath_bridge.v"],
+        translators=[("gofn-math", "GoFnMathGen.v")], bridge_files=["Gen/GoFnMath_bridge.v",
+                      "Properties/C15_paths.v"],  # which [next] counter a path uses (Model/MapPath.v, Proofs/MapPathProofs.v)
         trusted=[
             "extraction: ExtrOcamlBasic only; OCaml driver ocaml/C15/main.ml (case grammar -> model datatypes, Go fmt map printing) + ocaml/common/conv.ml",
             "correspondence harness harness/cmd/hC15 + harness/internal/a15 (real scenario http.NewProvider, Provider.Run/Acquire, "
